@@ -21,7 +21,7 @@ SPEC = dict(
         "when old and new text are both outside PEP 440 the gate decision is not modelled (legacy ordering): a refusal is "
                  "only counted, an accepted bump must announce exactly the model's text",
     ],
-    required=["agree:accepted", "agree:refused", "subprocess_replays", "update_command_replays",
+    required=["hash_part_cases", "agree:accepted", "agree:refused", "subprocess_replays", "update_command_replays",
               "noncanonical_start_versions"],
     anchors=[("v2version", "_incr_numeric"), ("v2version", "_reset_rollover_fields"), ("v2version", "incr"),
              ("v2version", "_is_cal_gt"), ("cli", "_validate_flags")],
@@ -38,6 +38,9 @@ PINNED = [
 
 
 def cases(ctx):
+    for k in range(len(HASH_CASES)):
+        if ctx.mine(k):
+            yield {"kind": "hash", "i": k}
     R = ctx.rng
     n = ctx.size(40000, 2000000)
     base = ctx.shard * 977
@@ -76,6 +79,30 @@ def cases(ctx):
             if t and t != ref.render(ast, st) and ref.parse(ast, t) is not None:
                 case = {"p": p, "old": t, "date": date.isoformat(), "flags": fl, "noncanonical": True}
         yield case
+
+
+# an optional group that holds only a hash part: it is omitted when there is no hash (and the enclosing groups with it),
+# and carried over unchanged when there is one. (pattern, old, args, expected)
+HASH_CASES = [
+    ("MAJOR.MINOR.PATCH[+HEXHASH]", "1.2.3", ["--patch"], "1.2.4"),
+    ("MAJOR.MINOR.PATCH[+HEXHASH]", "1.2.3+abc1", ["--patch"], "1.2.4+abc1"),
+    ("MAJOR.MINOR[.PATCH[+HEXHASH]]", "1.2.3", ["--minor"], "1.3"),
+    ("YYYY.BUILD[-TAG][+HEXHASH]", "2024.1001", ["--date", "2024-02-02"], "2024.1002"),
+    ("YYYY.MM[.INC0[+HEXHASH]]", "2024.5", ["--date", "2024-06-01"], "2024.6"),
+    ("MAJOR.MINOR.PATCH[+HEXHASH]", "1.2.3", ["--set-version", "1.2.4"], "1.2.4"),
+    ("vMAJOR.MINOR[.PATCH][-TAG[NUM]][+HEXHASH]", "v1.2-rc1+0f", ["--tag-num"], "v1.2-rc2+0f"),
+]
+
+
+def run_hash(ctx, case):
+    p, old, args, want = HASH_CASES[case["i"]]
+    res = harness.invoke(["test", old, p] + args)
+    got = res.stdout_value("New Version: ") if res.exit_code == 0 else None
+    ctx.counters["hash_part_cases"] += 1
+    ctx.evaluated(("hash", p, old), sample={"argv": res.args, "got": got})
+    if got != want:
+        ctx.violation("other:different_text" if got else "other:refused_where_model_predicts_version",
+                      f"test {old!r} {p!r} {args}: expected {want!r}, got {got!r} {res.errors()[-1:]} {res.crash or ''}", case=case)
 
 
 def gate(old, new):
@@ -120,6 +147,8 @@ def classify(case, ast, old, cur, exp, got):
 
 
 def run_case(ctx, case):
+    if case.get("kind") == "hash":
+        return run_hash(ctx, case)
     bvv = harness.bv().version
     today = bvv.TODAY
     p = case["p"]
